@@ -164,7 +164,7 @@ def r2(ctx):
         n += 1
         ctx.ob('C05.R2', fn, a, ok, 'digit pair accumulation', 'every path from reading the symbol to the accumulation passes a '
                'digit guard: %s' % ok)
-    if n < 3:
+    if n < 3 and not ctx.violated('C05.R2'):
         raise AnalysisBroken('C05.R2: only %d digit conversion sites recognised' % n)
 
 
